@@ -16,6 +16,7 @@ PHASE_LABELS = ("Fraction of positively charged residues", "Fraction of negative
 UV_LABELS = ("Mean net charge", "Mean hydropathy <H>")
 SEQS = ["KKEEGGSSPP", "KRKRKRKRGS", "GSGSGSGSGSGSGSGSKE"]
 LONGLABEL = "a rather long label for this point"
+EXTREME = ["KKKKKKKKKE", "RRRRRRRRRRRR", "EEEEDEEEEK"]      # markers beyond 0.8 on either axis of either diagram
 
 
 def plt():
@@ -501,28 +502,29 @@ def check_argtypes(case):
                     v("marker-position:" + name.split("_")[-1], "%s with coordinates (%r,%r) given as %s: markers %r, expected %r"
                       % (name, a, b, cn, None if d is None else d["markers"], exp))
     # numeric labels, including zero, on the multi-sequence functions
-    objs = [SP(s_) for s_ in SEQS]
-    fp = [o.get_fraction_positive() for o in objs]
-    fn = [o.get_fraction_negative() for o in objs]
-    hy = [o.get_uversky_hydropathy() for o in objs]
-    mc = [o.get_mean_net_charge() for o in objs]
-    for labels in ([0, 1, 2], [0.0, 0.5, 1.5], [2, 0, 0], ["a", 0, "c"]):
-        want = [str(l) for l in labels]
-        for name, f in (("plots.show_multiple_phasePlot", lambda L: plots.show_multiple_phasePlot(fp, fn, L, getFig=True)),
-                        ("plots.show_multiple_phasePlot2", lambda L: plots.show_multiple_phasePlot2(objs, L, getFig=True)),
-                        ("plots.show_multiple_uverskyPlot", lambda L: plots.show_multiple_uverskyPlot(hy, mc, L, getFig=True)),
-                        ("plots.show_multiple_uverskyPlot2", lambda L: plots.show_multiple_uverskyPlot2(objs, L, getFig=True))):
-            P.close("all")
-            calls += 1
-            try:
-                d = markers_of(f(list(labels)))
-            except Exception as e:  # noqa
-                v("plot-raises:" + name, "%s with labels %r raised %r" % (name, labels, e))
+    for family in (SEQS[:3], EXTREME):
+        objs = [SP(s_) for s_ in family]
+        fp = [o.get_fraction_positive() for o in objs]
+        fn = [o.get_fraction_negative() for o in objs]
+        hy = [o.get_uversky_hydropathy() for o in objs]
+        mc = [o.get_mean_net_charge() for o in objs]
+        for labels in ([0, 1, 2], [0.0, 0.5, 1.5], [2, 0, 0], ["a", 0, "c"]):
+            want = [str(l) for l in labels]
+            for name, f in (("plots.show_multiple_phasePlot", lambda L: plots.show_multiple_phasePlot(fp, fn, L, getFig=True)),
+                            ("plots.show_multiple_phasePlot2", lambda L: plots.show_multiple_phasePlot2(objs, L, getFig=True)),
+                            ("plots.show_multiple_uverskyPlot", lambda L: plots.show_multiple_uverskyPlot(hy, mc, L, getFig=True)),
+                            ("plots.show_multiple_uverskyPlot2", lambda L: plots.show_multiple_uverskyPlot2(objs, L, getFig=True))):
                 P.close("all")
-                continue
-            got = None if d is None else [t for t, _ in d["texts"]]
-            if got != want:
-                v("point-labels:" + name, "%s with labels %r drew %r, expected %r" % (name, labels, got, want))
+                calls += 1
+                try:
+                    d = markers_of(f(list(labels)))
+                except Exception as e:  # noqa
+                    v("plot-raises:" + name, "%s with labels %r raised %r" % (name, labels, e))
+                    P.close("all")
+                    continue
+                got = None if d is None else [t for t, _ in d["texts"]]
+                if got != want:
+                    v("point-labels:" + name, "%s with labels %r drew %r, expected %r" % (name, labels, got, want))
     P.close("all")
     return out, calls
 
